@@ -7,7 +7,7 @@ for t in b["stable_pass"]:
     ids.append(mod.replace(".", "/") + ".py::" + name)
 env = dict(os.environ); env.pop("BEMPP_CL_VERIF", None)
 repo = os.environ.get("VERIF_REPO", "/repo")
-p = subprocess.run(["/venv/bin/python", "-m", "pytest", "-q", "-p", "no:cacheprovider", "--timeout=900", "-x"] + ids, cwd=repo, env=env, stdout=subprocess.PIPE, stderr=subprocess.STDOUT)
+p = subprocess.run(["/venv/bin/python", "-m", "pytest", "-q", "-p", "no:cacheprovider", "--timeout=3000", "-x"] + ids, cwd=repo, env=env, stdout=subprocess.PIPE, stderr=subprocess.STDOUT)
 out = p.stdout.decode()
 print("\n".join(out.splitlines()[-6:]))
 sys.exit(p.returncode)
